@@ -305,6 +305,11 @@ type setInst struct {
 	auxOK bool               // model knows the identity
 	fifo  bool
 	fold  bool
+	// own: a slice the caller keeps (two characters in one backing array); by: another stack that was
+	// configured from the whole of it; whatever is done with parts of the slice, both stay as they are
+	own    []string
+	by     stackage.Stack
+	byWant string
 }
 
 type setOp struct {
@@ -382,8 +387,31 @@ func c18SetOps() []setOp {
 				case string:
 					pair = []string{tv}
 				case []string:
-					pair = tv
+					pair = append([]string{}, tv...)
 				}
+				dup := false
+				for _, ch := range pair {
+					if inUse(in.enc, ch) {
+						dup = true
+					}
+				}
+				if !dup {
+					in.enc = append(in.enc, pair)
+				}
+			}
+		})
+	}
+	// parts of a slice the caller keeps, one element each, with spare room behind the first
+	for _, e := range []struct {
+		n     string
+		parts func(own []string) []any
+	}{{"own[:1]", func(o []string) []any { return []any{o[:1]} }}, {"own[1:]", func(o []string) []any { return []any{o[1:]} }}, {"own[:1],own[1:]", func(o []string) []any { return []any{o[:1], o[1:]} }}} {
+		e := e
+		add("SetEncap("+e.n+")", func(in *setInst) {
+			args := e.parts(in.own)
+			in.s.SetEncap(args...)
+			for _, a := range args {
+				pair := append([]string{}, a.([]string)...)
 				dup := false
 				for _, ch := range pair {
 					if inUse(in.enc, ch) {
@@ -428,10 +456,13 @@ func c18SetMachine(c *Ctx, kind string, maxDepth int) *Machine[*setInst] {
 	return &Machine[*setInst]{
 		Name: name,
 		New: func() *setInst {
+			own := []string{"{", "}"}
+			by := stackage.List().SetEncap(own).Push("by")
+			in := &setInst{s: newStackKind(kind).Push("a", "b"), kind: kind, own: own, by: by, byWant: by.String()}
 			if withMutex {
-				return &setInst{s: newStackKind(kind).SetMutex().Push("a", "b"), kind: kind}
+				in.s = newStackKind(kind).SetMutex().Push("a", "b")
 			}
-			return &setInst{s: newStackKind(kind).Push("a", "b"), kind: kind}
+			return in
 		},
 		NumOps:  len(ops),
 		OpName:  func(in *setInst, i int) string { return ops[i].name },
@@ -449,6 +480,12 @@ func c18SetMachine(c *Ctx, kind string, maxDepth int) *Machine[*setInst] {
 			cls := opClass(ops[i].name)
 			bad := func(k, f string, a ...any) { out = append(out, k+"\x00"+fmt.Sprintf(f, a...)) }
 			s := in.s
+			if in.own[0] != "{" || in.own[1] != "}" {
+				bad("caller-slice-modified:"+cls, "the caller's own slice now reads %q (it was [\"{\" \"}\"]): a setter wrote into the caller's backing array", in.own)
+			}
+			if got := in.by.String(); got != in.byWant {
+				bad("bystander-changed:"+cls, "another Stack, configured earlier from the caller's slice, now renders %q instead of %q", got, in.byWant)
+			}
 			if got := s.ID(); got != in.id {
 				bad("ID:"+cls, "ID()=%q want %q", got, in.id)
 			}
@@ -558,7 +595,7 @@ func c18CondSetMachine(c *Ctx) *Machine[*csetInst] {
 				case string:
 					pair = []string{tv}
 				case []string:
-					pair = tv
+					pair = append([]string{}, tv...)
 				}
 				dup := false
 				for _, ch := range pair {
